@@ -3,7 +3,7 @@
           simulated time never decreases (C19) and no block ever asks for a negative delay. *)
 From Coq Require Import List ZArith Lia Bool Arith.
 From RecordUpdate Require Import RecordUpdate.
-From FV Require Import ListLemmas Kernel SrcFragments TieB World Factory.
+From FV Require Import ListLemmas Kernel SrcFragments Lens World Factory.
 From FV Require StoreB.
 Import ListNotations.
 Open Scope Z_scope.
